@@ -60,7 +60,9 @@ RULE = ("rt: fixed-order grid of writer options (labels present/absent, comment 
         "small panels (quick: seed-rotated slice, thorough: all) + random panels over magnitudes 1e-8..1e12, mixed magnitudes, ints, "
         "1..12 instances, length 1..60 + off-domain options (univariate=False, timestamp=True, mismatching label counts). "
         "files: every bundled dataset in every format (quick: small ones + seed-rotated large), harness-rendered three-format data sets, "
-        "generated TRAIN/TEST pairs through _load_dataset, malformed .ts/.arff/.tsv stream, corpus. distinct by driver line; "
+        "generated TRAIN/TEST pairs through _load_dataset, loader call HISTORIES (all ordered pairs of the six split x form calls on the "
+        "small set, random sequences of 2-8 calls with user mutations of returned objects on bundled and generated sets; oracle only), "
+        "malformed .ts/.arff/.tsv stream, corpus. distinct by driver line; "
         "non-trivial = the real loader returned a non-empty panel")
 LEVEL_TEXT = ("proof for the model: parse(write(panel, labels, options)) returns the panel's instances, lengths, order, the values the "
               "printed tokens denote and the case/space-normalised labels, for every univariate panel, label list and writer option; "
@@ -405,7 +407,7 @@ def _load_texts(c):
 
 
 def _load(c):
-    import sktime.datasets.base as base
+    base = _fresh_modules()
     with _Tmp() as d:
         if "ds" in c:
             ds = c["ds"]
@@ -435,6 +437,10 @@ def _load(c):
                 fr = call(split, False)
                 lab = [c_ for c_ in fr.columns if c_ in ("class_val", "class_vals")]
                 fr_r = canon_panel(fr, list(fr[lab[0]]) if lab else None)
+                # the frame is X plus exactly one label column; X itself carries no label column
+                if [str(c_) for c_ in fr.columns] != [str(c_) for c_ in X.columns] + ["class_val"] or \
+                        any(c_ in ("class_val", "class_vals") for c_ in X.columns):
+                    fr_r += "!cols"
             except Exception as e:
                 fr_r = canon_err(e)
             forms.append("T" if fr_r == r else "F")
@@ -503,8 +509,18 @@ def _mutate(res, rxy, kind):
         X.rename(columns={X.columns[0]: "renamed"}, inplace=True)
 
 
-def _hist(c):
+def _fresh_modules():
+    """every history starts from fresh module state (module-level caches are re-created), so that a failing
+    history replays alone and shrinks to the calls that matter"""
+    import importlib
+    import sktime.utils.data_io as dio
     import sktime.datasets.base as base
+    importlib.reload(dio)
+    return importlib.reload(base)
+
+
+def _hist(c):
+    base = _fresh_modules()
     from sktime.utils.data_io import load_from_tsfile_to_dataframe
     with _Tmp() as d:
         if "ds" in c:
@@ -560,7 +576,7 @@ def _hist(c):
                     kept.append("F")
         return "refcols=%s ref=%s calls=%s kept=%s" % (
             refcols, ";".join("%s:%s:%s:%d" % (k_, v[0], v[1], v[2]) for k_, v in ref.items()),
-            ";".join(":".join(str(x) for x in r) for r in recs), "".join(kept))
+            ";".join("!".join(str(x) for x in r) for r in recs), "".join(kept))
 
 
 def _hist_oracle(c, out):
@@ -574,7 +590,7 @@ def _hist_oracle(c, out):
         ref[k_] = (dx, dy, n)
     refcols = d["refcols"].split("+")
     fails = []
-    recs = [r.split(":") for r in d["calls"].split(";")]
+    recs = [r.split("!") for r in d["calls"].split(";")]
     calls = c["calls"]
     mutated_before = False
     seen = {}
@@ -592,7 +608,7 @@ def _hist_oracle(c, out):
         want_cols = refcols if rxy == "T" else refcols + ["class_val"]
         bad = (cl != want_cols) or (dx, dy, n) != ref[split]
         if bad:
-            key = "loader-history:user-mutation-leaks" if mutated_before else "loader-history:differs-from-fresh-call"
+            key = "loader-history:differs-from-fresh-call:after-user-mutation" if mutated_before else "loader-history:differs-from-fresh-call"
             fails.append((key, desc + ": columns %s rows %s; a fresh call gives columns %s rows %s%s" % (
                 [dec(x) for x in cl], n, [dec(x) for x in want_cols], ref[split][2],
                 "" if (dx, dy) == ref[split][:2] or cl != want_cols else " (values or labels differ)")))
@@ -858,6 +874,8 @@ def _canon_label(x):
 
 def nontrivial(c, out):
     k = c["k"]
+    if k == "hist":
+        return "calls=" in out and "!E:" not in out
     if k == "rt":
         r = parse_result(_kv(out).get("p", "-"))
     elif k == "fmt":
@@ -872,6 +890,14 @@ def nontrivial(c, out):
 def features(c, out):
     k = c["k"]
     f = ["kind=" + k]
+    if k == "hist":
+        f.append("hist-src=" + (c["ds"] if "ds" in c else "generated"))
+        f.append("hist-len=%d" % len(c["calls"]))
+        for s_, x_, m_ in c["calls"]:
+            f.append("hist-call=%s/%s" % (s_ or "none", "Xy" if x_ else "frame"))
+            if m_:
+                f.append("hist-mutation=" + m_)
+        return f
     if k == "rt":
         d = _kv(out)
         f.append("labels=" + ("yes" if c.get("vals") else "no"))
@@ -1176,6 +1202,29 @@ def gen_cases(tier, rng):
     for _ in range(150 if thorough else 20):
         nd = rng.choice([1, 1, 2])
         cases.append({"k": "load", "gen": {"train": _gen_set(rng, nd=nd, n=rng.randrange(1, 6)), "test": _gen_set(rng, nd=nd, n=rng.randrange(1, 6))}})
+    # ---- 5b. loader call HISTORIES: sequences of (split, form) calls in one process, some followed by a user
+    #          mutation of the returned object; every ordered pair of the six forms on the small set first
+    forms6 = [[sp, rxy] for sp in ("train", "test", None) for rxy in (True, False)]
+    for a in forms6:
+        for b in forms6:
+            cases.append({"k": "hist", "ds": "UnitTest", "calls": [a + [None], b + [None], a + [None]]})
+    muts = ["addcol", "cell", "setcell", "droprow", "labels", "rename"]
+
+    def _history(n):
+        calls = []
+        for _ in range(n):
+            sp, rxy = rng.choice(forms6)
+            calls.append([sp, rxy, rng.choice(muts) if rng.random() < 0.25 else None])
+        return calls
+    hist_sets = BUNDLED_TS if thorough else ["UnitTest", "GunPoint", "ItalyPowerDemand", rng.choice(["ArrowHead", "BasicMotions"])]
+    for ds in hist_sets:
+        big = ds in ("ACSF1", "PLAID", "OSULeaf", "JapaneseVowels")
+        for _ in range((4 if big else 25) if thorough else (6 if ds != "UnitTest" else 20)):
+            cases.append({"k": "hist", "ds": ds, "calls": _history(rng.randrange(2, 5 if big else 9))})
+    for _ in range(120 if thorough else 15):
+        nd = rng.choice([1, 1, 2])
+        cases.append({"k": "hist", "gen": {"train": _gen_set(rng, nd=nd, n=rng.randrange(1, 6)), "test": _gen_set(rng, nd=nd, n=rng.randrange(1, 6))},
+                      "calls": _history(rng.randrange(2, 9))})
     # ---- 6. malformed stream
     cases.extend(_malformed_ts(rng, tier))
     cases.extend(_malformed_other(rng))
@@ -1183,6 +1232,17 @@ def gen_cases(tier, rng):
 
 
 def shrink(c):
+    if c["k"] == "hist":
+        calls = c["calls"]
+        for i in range(len(calls)):
+            if len(calls) > 1:
+                yield dict(c, calls=calls[:i] + calls[i + 1:])
+        for i, (s_, x_, m_) in enumerate(calls):
+            if m_:
+                yield dict(c, calls=calls[:i] + [[s_, x_, None]] + calls[i + 1:])
+        if "ds" in c and c["ds"] != "UnitTest":
+            yield dict(c, ds="UnitTest")
+        return
     if c["k"] != "rt":
         return
     X = c["X"]
